@@ -3,7 +3,12 @@
    gen/GenFlow.v (translator/cmd/convertflow, re-run on every check) lists, for every modelled
    function, the events of a path-sensitive symbolic execution with their path conditions, in a
    normal form (struct-typed identifiers named by type, single-assignment locals and helper
-   functions inlined, switch = if-chain, string building normalised, ...).  Each obligation here
+   functions inlined, switch = if-chain, string building normalised, x = x || e read as
+   if e { x = true }, tags.AnyInteresting() read as hasInterestingTags(tags, nil), ...).  The
+   remaining locals and parameters are named by their type and their declaration order within
+   the function — "orb.LineString#0" is the first orb.LineString variable of the function (ls in
+   wayToLineString), "bool#0" the first bool (tainted), "bool#1" the second (t) — so renaming a
+   variable changes nothing here.  Each obligation here
    takes the DISJUNCTION of the path conditions of one event (pc_of: scope, kind, text) and shows
    that it evaluates — for ALL values of its leaves — to the boolean the model hard-codes for
    that decision.  The proofs compute the formula from the generated data and then go through
@@ -111,11 +116,11 @@ Proof. reflexivity. Qed.
 (* ================= wayToLineString ================= *)
 Lemma way_line_flow (lon lat : Z) (nonode : bool) :
   let env := env_of [("WayNode.Lon", VZ lon); ("WayNode.Lat", VZ lat); ("Node", VNil nonode)] in
-  ceval env (pc_of events_context_wayToLineString "osm.WayNodes" "call" "append(ls, orb.Point{WayNode.Lon, WayNode.Lat})")
+  ceval env (pc_of events_context_wayToLineString "osm.WayNodes" "call" "append(orb.LineString#0, orb.Point{WayNode.Lon, WayNode.Lat})")
   = VB (negb (lon =? 0) || negb (lat =? 0)) /\
-  ceval env (pc_of events_context_wayToLineString "osm.WayNodes" "call" "append(ls, orb.Point{Node.Lon, Node.Lat})")
+  ceval env (pc_of events_context_wayToLineString "osm.WayNodes" "call" "append(orb.LineString#0, orb.Point{Node.Lon, Node.Lat})")
   = VB (negb (negb (lon =? 0) || negb (lat =? 0)) && negb nonode) /\
-  ceval env (pc_of_val events_context_wayToLineString "osm.WayNodes" "assign" "tainted" "true")
+  ceval env (pc_of_val events_context_wayToLineString "osm.WayNodes" "assign" "bool#0" "true")
   = VB (negb (negb (lon =? 0) || negb (lat =? 0)) && nonode).
 Proof. repeat split; truth_table. Qed.
 Lemma way_line_model d wn :
@@ -125,9 +130,9 @@ Proof. reflexivity. Qed.
 
 (* ================= wayToFeature ================= *)
 Lemma way_feature_flow (len : Z) (area noid : bool) :
-  let env := env_of [("len(ls)", VZ len); ("Way.Polygon()", VB area); ("context.noID", VB noid)] in
+  let env := env_of [("len(orb.LineString#0)", VZ len); ("Way.Polygon()", VB area); ("context.noID", VB noid)] in
   ceval env (pc_of events_context_wayToFeature "" "return" "nil") = VB (len <=? 1) /\
-  ceval env (pc_of events_context_wayToFeature "" "call" "reorient(p)") = VB (negb (len <=? 1) && area) /\
+  ceval env (pc_of events_context_wayToFeature "" "call" "reorient(orb.Polygon#0)") = VB (negb (len <=? 1) && area) /\
   ceval env (pc_of_val events_context_wayToFeature "" "assign" "Feature.ID" """way/"" ++ dec(Way.ID)")
   = VB (negb (len <=? 1) && negb noid) /\
   ceval env (pc_of events_context_wayToFeature "" "assign" "Feature.ID") = VB (negb (len <=? 1) && negb noid).
@@ -138,10 +143,10 @@ Proof. destruct ls as [|a [|b l]]; try reflexivity. cbn [List.length]. symmetry.
 (* ================= buildRouteLineString ================= *)
 Lemma route_flow (ty : string) (noway hi t noid : bool) (nlines : Z) :
   let env := env_of [("Member.Type", VS ty); ("Way", VNil noway); ("hasInterestingTags(Way.Tags, nil)", VB hi);
-                     ("t", VB t); ("len(lines)", VZ nlines); ("context.noID", VB noid)] in
+                     ("bool#1", VB t); ("len([]mputil.Segment#0)", VZ nlines); ("context.noID", VB noid)] in
   ceval env (pc_of events_context_buildRouteLineString "osm.Members" "assign" "context.skippable[Way.ID]")
   = VB (String.eqb ty "way" && negb noway && negb hi) /\
-  ceval env (pc_of_val events_context_buildRouteLineString "osm.Members" "assign" "tainted" "true")
+  ceval env (pc_of_val events_context_buildRouteLineString "osm.Members" "assign" "bool#0" "true")
   = VB (String.eqb ty "way" && (noway || t)) /\
   ceval env (pc_of events_context_buildRouteLineString "" "return" "nil") = VB (nlines =? 0).
 Proof. repeat split; truth_table. Qed.
@@ -153,15 +158,15 @@ Proof. vm_compute. split; reflexivity. Qed.
 
 (* ================= addMetaProperties ================= *)
 Lemma relations_flow (norel : bool) (n : Z) :
-  ceval (env_of [("context.noRelationMembership", VB norel); ("len(context.relationMember[e.FeatureID()])", VZ n)])
-        (pc_of events_context_addMetaProperties "" "assign" "props[""relations""]") = VB (negb norel).
+  ceval (env_of [("context.noRelationMembership", VB norel); ("len(context.relationMember[osm.Element#0.FeatureID()])", VZ n)])
+        (pc_of events_context_addMetaProperties "" "assign" "geojson.Properties#0[""relations""]") = VB (negb norel).
 Proof. truth_table. Qed.
 
 (* the five meta fields, for the three element types: present exactly when non-zero *)
 Definition meta_env (norel nometa isN isW isR : bool) (n : Z) (tsz : string -> bool) (ver cs uid : string -> Z) (usr : string -> string) :=
   env_of (("context.noRelationMembership", VB norel) :: ("context.noMeta", VB nometa)
-          :: ("len(context.relationMember[e.FeatureID()])", VZ n)
-          :: ("type(e)==Node", VB isN) :: ("type(e)==Way", VB isW) :: ("type(e)==Relation", VB isR)
+          :: ("len(context.relationMember[osm.Element#0.FeatureID()])", VZ n)
+          :: ("type(osm.Element#0)==Node", VB isN) :: ("type(osm.Element#0)==Way", VB isW) :: ("type(osm.Element#0)==Relation", VB isR)
           :: flat_map (fun ty => [(ty ++ ".Timestamp.IsZero()", VB (tsz ty)); (ty ++ ".Version", VZ (ver ty));
                                   (ty ++ ".ChangesetID", VZ (cs ty)); (ty ++ ".User", VS (usr ty)); (ty ++ ".UserID", VZ (uid ty))])
                       ["Node"; "Way"; "Relation"]).
@@ -170,15 +175,15 @@ Definition by_type (isN isW isR : bool) (p : string -> bool) : bool :=
 
 Lemma meta_fields_flow norel nometa isN isW isR n tsz ver cs uid usr :
   let env := meta_env norel nometa isN isW isR n tsz ver cs uid usr in
-  ceval env (pc_of events_context_addMetaProperties "" "assign" "meta[""timestamp""]")
+  ceval env (pc_of events_context_addMetaProperties "" "assign" "map[string]interface{}#0[""timestamp""]")
   = VB (negb nometa && by_type isN isW isR (fun ty => negb (tsz ty))) /\
-  ceval env (pc_of events_context_addMetaProperties "" "assign" "meta[""version""]")
+  ceval env (pc_of events_context_addMetaProperties "" "assign" "map[string]interface{}#0[""version""]")
   = VB (negb nometa && by_type isN isW isR (fun ty => negb (ver ty =? 0))) /\
-  ceval env (pc_of events_context_addMetaProperties "" "assign" "meta[""changeset""]")
+  ceval env (pc_of events_context_addMetaProperties "" "assign" "map[string]interface{}#0[""changeset""]")
   = VB (negb nometa && by_type isN isW isR (fun ty => negb (cs ty =? 0))) /\
-  ceval env (pc_of events_context_addMetaProperties "" "assign" "meta[""user""]")
+  ceval env (pc_of events_context_addMetaProperties "" "assign" "map[string]interface{}#0[""user""]")
   = VB (negb nometa && by_type isN isW isR (fun ty => negb (String.eqb (usr ty) ""))) /\
-  ceval env (pc_of events_context_addMetaProperties "" "assign" "meta[""uid""]")
+  ceval env (pc_of events_context_addMetaProperties "" "assign" "map[string]interface{}#0[""uid""]")
   = VB (negb nometa && by_type isN isW isR (fun ty => negb (uid ty =? 0))).
 Proof.
   unfold meta_env, by_type. repeat split; eval_pc; cbn;
@@ -187,11 +192,11 @@ Qed.
 (* the assigned values are the element's own fields, and there is no sixth key *)
 Definition is_prefix (p s : string) : bool := String.eqb p (String.substring 0 (String.length p) s).
 Lemma meta_keys_flow :
-  forallb (fun e => negb (is_prefix "meta[" (ev_text e)) ||
+  forallb (fun e => negb (is_prefix "map[string]interface{}#0[" (ev_text e)) ||
                     existsb (String.eqb (ev_text e))
-                            ["meta[""timestamp""]"; "meta[""version""]"; "meta[""changeset""]"; "meta[""user""]"; "meta[""uid""]"])
+                            ["map[string]interface{}#0[""timestamp""]"; "map[string]interface{}#0[""version""]"; "map[string]interface{}#0[""changeset""]"; "map[string]interface{}#0[""user""]"; "map[string]interface{}#0[""uid""]"])
           events_context_addMetaProperties = true /\
-  forallb (fun e => negb (is_prefix "meta[" (ev_text e)) ||
+  forallb (fun e => negb (is_prefix "map[string]interface{}#0[" (ev_text e)) ||
                     existsb (fun ty => existsb (fun f => String.eqb (ev_val e) (ty ++ f))
                                                [".Timestamp"; ".Version"; ".ChangesetID"; ".User"; ".UserID"])
                             ["Node"; "Way"; "Relation"])
@@ -211,8 +216,8 @@ Qed.
 
 (* ================= hasInterestingTags ================= *)
 Lemma interesting_flow (u isnil : bool) (ik v : string) :
-  ceval (env_of [("osm.UninterestingTags[Tag.Key]", VB u); ("ignore", VNil isnil);
-                 ("ignore[Tag.Key]", VS ik); ("Tag.Value", VS v)])
+  ceval (env_of [("osm.UninterestingTags[Tag.Key]", VB u); ("map[string]string#0", VNil isnil);
+                 ("map[string]string#0[Tag.Key]", VS ik); ("Tag.Value", VS v)])
         (pc_of events_hasInterestingTags "osm.Tags" "return" "true")
   = VB (negb u && (isnil || negb (String.eqb ik "true" || String.eqb ik v))).
 Proof. truth_table. Qed.
@@ -226,8 +231,8 @@ Proof. unfold tag_interesting. destruct ignore; reflexivity. Qed.
 
 (* ================= toRing, reorient ================= *)
 Lemma to_ring_flow (n a b : Z) :
-  ceval (env_of [("len(ls)", VZ n); ("ls[0]", VZ a); ("ls[len(ls)-1]", VZ b)])
-        (pc_of events_toRing "" "call" "append(ls, ls[0])") = VB ((2 <=? n) && negb (a =? b)).
+  ceval (env_of [("len(orb.LineString#0)", VZ n); ("orb.LineString#0[0]", VZ a); ("orb.LineString#0[len(orb.LineString#0)-1]", VZ b)])
+        (pc_of events_toRing "" "call" "append(orb.LineString#0, orb.LineString#0[0])") = VB ((2 <=? n) && negb (a =? b)).
 Proof.
   eval_pc. cbn. f_equal.
   destruct (a =? b); rewrite ?andb_false_r, ?andb_true_r; try reflexivity; cbn [negb];
@@ -245,7 +250,7 @@ Lemma to_ring_model (ls : list pt) :
 Proof. reflexivity. Qed.
 
 Lemma reorient_flow (o : Z) :
-  ceval (env_of [("p[0].Orientation()", VZ o)]) (pc_of events_reorient "" "call" "p[0].Reverse()")
+  ceval (env_of [("orb.Polygon#0[0].Orientation()", VZ o)]) (pc_of events_reorient "" "call" "orb.Polygon#0[0].Reverse()")
   = VB (negb (o =? 1)).
 Proof. truth_table. Qed.
 Lemma reorient_model (r : list pt) : reorient_outer r = if negb (ring_orientation r =? 1) then rev r else r.
@@ -254,25 +259,25 @@ Proof. unfold reorient_outer. destruct (ring_orientation r =? 1); reflexivity. Q
 (* ================= buildPolygon ================= *)
 (* when does an old-style relation take the outer way's identity (tagObject = outerWay) *)
 Lemma adoption_flow (nouter oc nring : Z) (incl closed hirel : bool) :
-  ceval (env_of [("len(outer)", VZ nouter); ("outerCount", VZ oc); ("context.includeInvalidPolygons", VB incl);
-                 ("len(mputil.MultiSegment(outer).Ring(orb.CCW))", VZ nring);
-                 ("mputil.MultiSegment(outer).Ring(orb.CCW).Closed()", VB closed);
+  ceval (env_of [("len([]mputil.Segment#0)", VZ nouter); ("int#0", VZ oc); ("context.includeInvalidPolygons", VB incl);
+                 ("len(mputil.MultiSegment([]mputil.Segment#0).Ring(orb.CCW))", VZ nring);
+                 ("mputil.MultiSegment([]mputil.Segment#0).Ring(orb.CCW).Closed()", VB closed);
                  ("hasInterestingTags(Relation.Tags, map[string]string{""type"": ""true""})", VB hirel)])
-        (pc_of_val events_context_buildPolygon "" "assign" "tagObject" "Way")
+        (pc_of_val events_context_buildPolygon "" "assign" "osm.Element#0" "Way")
   = VB (negb ((nouter =? 0) && negb incl) && ((nouter =? 1) && (oc =? 1))
         && negb ((nring <? 4) || negb closed) && negb hirel).
 Proof. truth_table. Qed.
 Lemma adoption_skips_flow :
   (* the adopted way is marked skippable under the same condition *)
   pc_of events_context_buildPolygon "" "assign" "context.skippable[Way.ID]"
-  = pc_of_val events_context_buildPolygon "" "assign" "tagObject" "Way".
+  = pc_of_val events_context_buildPolygon "" "assign" "osm.Element#0" "Way".
 Proof. vm_compute. reflexivity. Qed.
 
 (* the member loop: which ways the relation absorbs *)
 Lemma polygon_members_flow (ty role : string) (noway hit hin : bool) (nn : Z) :
   ceval (env_of [("Member.Type", VS ty); ("Member.Role", VS role); ("Way", VNil noway);
                  ("len(Member.Nodes)", VZ nn);
-                 ("hasInterestingTags(Way.Tags, tags)", VB hit); ("hasInterestingTags(Way.Tags, nil)", VB hin)])
+                 ("hasInterestingTags(Way.Tags, map[string]string#0)", VB hit); ("hasInterestingTags(Way.Tags, nil)", VB hin)])
         (pc_of events_context_buildPolygon "osm.Members" "assign" "context.skippable[Way.ID]")
   = VB (String.eqb ty "way" && (String.eqb role "inner" || String.eqb role "outer")
         && (negb noway || negb (nn =? 0))
@@ -282,11 +287,12 @@ Proof. truth_table. Qed.
 (* ================= options.go ================= *)
 Definition row_eqb (a b : string * string * cx) : bool :=
   String.eqb (fst (fst a)) (fst (fst b)) && String.eqb (snd (fst a)) (snd (fst b)) && cx_eqb (snd a) (snd b).
+(* every option stores its own bool parameter ("bool#0": the first bool variable of the function) *)
 Lemma options_flow :
   forallb (fun row => existsb (row_eqb row) option_sets)
-    [("NoID", "context.noID", CLeaf "yes"); ("NoMeta", "context.noMeta", CLeaf "yes");
-     ("NoRelationMembership", "context.noRelationMembership", CLeaf "yes");
-     ("IncludeInvalidPolygons", "context.includeInvalidPolygons", CLeaf "yes")] = true
+    [("NoID", "context.noID", CLeaf "bool#0"); ("NoMeta", "context.noMeta", CLeaf "bool#0");
+     ("NoRelationMembership", "context.noRelationMembership", CLeaf "bool#0");
+     ("IncludeInvalidPolygons", "context.includeInvalidPolygons", CLeaf "bool#0")] = true
   /\ List.length option_sets = 4%nat.
 Proof. vm_compute. split; reflexivity. Qed.
 
